@@ -41,7 +41,8 @@ def run(ctx):
             r.check('%s:stale' % nm, len(stale) == 1 and [e for e in stale[0].effects if e != TOK] == [] and stale[0].done is None and stale[0].value_str() == 'Ok(())', site, built=[x.row() for x in stale],
                     expected='after the state left Steady (slot dropped earlier in this batch): nothing, Ok(())',
                     why='the close and the request can be in one poll batch, socket first; this arm must not panic')
-        gen = [x for x in rows if x.conds == [(TOK, 'mio::Token(_)'), ('((u16::MAX as usize) < %s.Token.0)' % TOK, False)]]  # Token(n) if n <= u16::MAX
+        gen = [x for x in rows if len(x.conds) == 2 and x.conds[0] == (TOK, 'mio::Token(_)') and x.conds[1][1] is False and x.conds[1][0].endswith(' < %s.Token.0)' % TOK) and
+               panics.token_bound_is_u16_max(ctx, x.conds[1][0][1:-len(' < %s.Token.0)' % TOK)])]  # Token(n) if n <= u16::MAX
         r.check('Token(n)', len(gen) == 1 and gen[0].effects[-1] == 'io_loop::Inner::handle_channel_readable(self.inner, (%s.Token.0 as u16))' % TOK, site, built=[x.row() for x in gen])
         rows2 = P.table(ctx, 'io_loop::Inner::handle_channel_readable', ['self', 'channel_id'])
         none = [x for x in rows2 if x.conds and x.conds[0] == ('io_loop::channel_slots::ChannelSlots::get(self.chan_slots, channel_id)', 'None')]
